@@ -1,5 +1,117 @@
 import GnpyModel.Scalar
-/- model file Fiber (see DESIGN.md §2) -/
-namespace Gnpy
+import GnpyModel.Interp
+import GnpyModel.Gn
+/-
+C05 — fibre span: loss budget, chromatic dispersion, PMD, PDL, latency
+(gnpy/core/elements.py `Fiber.__init__/loss/chromatic_dispersion/pmd/propagate`, `Roadm.propagate` and
+`Edfa.propagate` PMD/PDL lines; gnpy/core/science_utils.py `RamanSolver._create_lumped_losses/
+calculate_attenuation_profile/calculate_unidirectional_stimulated_raman_scattering`;
+gnpy/core/parameters.py `FiberParams` latency, `convert_length`; gnpy/core/info.py `apply_attenuation_db`).
+-/
+namespace Gnpy.Fiber
+open Gnpy.Gn
 
-end Gnpy
+section
+variable {α : Type} [Add α] [Sub α] [Mul α] [Div α] [Neg α] [NatCast α] [LT α] [LE α]
+  [DecidableLT α] [DecidableLE α] [Transc α] [HasPi α]
+
+local notation "N(" n ")" => ((n : Nat) : α)
+local notation "π" => (HasPi.pi : α)
+
+/-- `utils.convert_length(value, units)` for the two accepted units -/
+def convertLength (v : α) (km : Bool) : α := if km then v * N(1000) else v * N(1)
+
+/-- `SpectralInformation.apply_attenuation_db`: `pch *= 1 / db2lin(att)` -/
+def applyAttDb (p att : α) : α := p * (N(1) / db2lin att)
+
+/-- `Fiber.__init__`: `lumped_losses = db2lin(- loss_dB)` -/
+def lumpedLin (lossDb : α) : α := db2lin (-lossDb)
+
+/-! ### lumped losses on the z axis (`RamanSolver._create_lumped_losses`)
+`numpy.unique(concatenate((z_lumped, z)), return_index=True)` keeps, for every distinct position, the FIRST
+occurrence in `z_lumped ++ z`; the result is sorted by position.  Points are `(position [m], linear loss)`. -/
+
+/-- insert a point keeping ascending positions; a point whose position is already present is dropped
+(the earlier one wins) -/
+def insertPoint (pt : α × α) : List (α × α) → List (α × α)
+  | [] => [pt]
+  | q :: rest =>
+    if pt.1 < q.1 then pt :: q :: rest
+    else if q.1 < pt.1 then q :: insertPoint pt rest
+    else q :: rest
+
+/-- `_create_lumped_losses(z, lumped_losses, z_lumped_losses)`: the merged, position-sorted list of
+`(z, loss)` where grid points carry the loss 1 -/
+def createLumped (lumped : List (α × α)) (z : List α) : List (α × α) :=
+  (lumped ++ z.map (fun x => (x, N(1)))).foldl (fun acc pt => insertPoint pt acc) []
+
+def prodL : List α → α
+  | [] => N(1)
+  | x :: xs => x * prodL xs
+
+/-- last column of `calculate_attenuation_profile`: `exp(-alpha * L) * cumprod(lumped)[-1]` -/
+def fibreLossLin (alpha len : α) (lumped : List (α × α)) : α :=
+  Transc.exp (-(alpha * len)) * prodL ((createLumped lumped [N(0), len]).map (·.2))
+
+/-- `Fiber.propagate` without Raman, one channel: input connector + padding, fibre loss, output connector -/
+def propagateP (p conIn attIn alpha len : α) (lumped : List (α × α)) (conOut : α) : α :=
+  applyAttDb (applyAttDb p (conIn + attIn) * fibreLossLin alpha len lumped) conOut
+
+/-- `Fiber.loss` (dB) at the reference frequency: what the design uses -/
+def lossDb (lossCoefRef len conIn conOut attIn : α) (lumpedLinear : List α) : α :=
+  lossCoefRef * len + conIn + conOut + attIn + sumL (lumpedLinear.map (fun l => lin2db (N(1) / l)))
+
+/-! ### chromatic dispersion, PMD, latency -/
+
+/-- `Fiber.beta3(f)` for a scalar dispersion (`none` slope ⇒ 0) -/
+def beta3Scalar (slope : Option α) (f beta2 : α) : α :=
+  match slope with
+  | none => N(0)
+  | some s =>
+    let d := N(2) * π * (f * f) / cLight
+    (s - N(4) * π * (f * f * f) / (cLight * cLight) * beta2) / (d * d)
+
+/-- `Fiber.chromatic_dispersion(f)`: `-(beta2 + 2π beta3 (f - f_ref)) * 2π f_ref² / c * length` -/
+def chromaticDispersion (beta2 beta3 f refF len : α) : α :=
+  let negBeta := -(beta2 + N(2) * π * beta3 * (f - refF))
+  negBeta * N(2) * π * (refF * refF) / cLight * len
+
+/-- `Fiber.pmd = pmd_coef * sqrt(length)` -/
+def fibrePmd (pmdCoef len : α) : α := pmdCoef * Transc.sqrt len
+
+/-- `FiberParams._latency = length / (c / n1)` -/
+def latency (len : α) : α := len / (cLight / n1)
+
+/-- `sqrt(x ** 2 + b ** 2)`: the PMD / PDL update of fibres, ROADMs and amplifiers -/
+def quadStep (x b : α) : α := Transc.sqrt (x * x + b * b)
+
+/-- what one element adds to the accumulated figures of one channel -/
+structure Contribution (α : Type) where
+  cd : α        -- [s/m]   (fibres only)
+  pmd : α       -- [s]
+  pdl : α       -- [dB]    (ROADMs and amplifiers only)
+  latency : α   -- [s]     (fibres only)
+
+/-- accumulated figures of one channel -/
+structure Acc (α : Type) where
+  cd : α
+  pmd : α
+  pdl : α
+  latency : α
+
+/-- one element crossed -/
+def accStep (a : Acc α) (c : Contribution α) : Acc α :=
+  { cd := a.cd + c.cd, pmd := quadStep a.pmd c.pmd, pdl := quadStep a.pdl c.pdl, latency := a.latency + c.latency }
+
+/-- a path = the elements crossed in order -/
+def accPath (a : Acc α) (cs : List (Contribution α)) : Acc α := cs.foldl accStep a
+
+/-- contribution of a fibre span to the channel at frequency `f` -/
+def fibreContribution (beta2 beta3 f refF len pmdCoef : α) : Contribution α :=
+  { cd := chromaticDispersion beta2 beta3 f refF len, pmd := fibrePmd pmdCoef len, pdl := N(0), latency := latency len }
+
+/-- contribution of a ROADM (`roadm-pmd`, `roadm-pdl` of the internal path) or of an amplifier (`params.pmd/pdl`) -/
+def lumpedContribution (pmd pdl : α) : Contribution α := { cd := N(0), pmd := pmd, pdl := pdl, latency := N(0) }
+
+end
+end Gnpy.Fiber
